@@ -173,8 +173,13 @@ impl std::ops::Add for CDDAOffset {
         // if both are already divisible by 588,
         // their added quantities will also
         // be divsible by 588
+        // (offsets read from a file may be arbitrarily large, so the
+        // sum saturates at the largest representable whole sector)
         Self {
-            offset: self.offset + rhs.offset,
+            offset: self
+                .offset
+                .checked_add(rhs.offset)
+                .unwrap_or(u64::MAX - u64::MAX % Self::SAMPLES_PER_SECTOR),
         }
     }
 }
@@ -697,7 +702,7 @@ impl<O: Adjacent> Adjacent for Index<O> {
     }
 
     fn is_next(&self, previous: &Self) -> bool {
-        self.offset.is_next(&previous.offset) && self.number == previous.number + 1
+        self.offset.is_next(&previous.offset) && previous.number.checked_add(1) == Some(self.number)
     }
 }
 
